@@ -359,7 +359,9 @@ def run(rep, tier, seed, replay_file=None):
         rep.self_test("trace spec rejects a lost update after a held composite Add", ok is True and ok2 is False, str(info2)[:200])
 
     rep.cov["rule"] = (
-        "terms = every ErrAlgebra term of the cfg bounds (depth 1: arity<=3 over 5 leaves+nil; depth 2: arity<=2 over {s1,t1}+nil) "
+        "terms = every ErrAlgebra term of the cfg bounds (depth 1: arity<=3 over 5 leaves+nil; depth 2: arity<=2 over {s1,t1}+nil; "
+        "tail terms: errors.Unwrap of every 2..3-constituent *ers.Stack value of depth 1 whose dropped constituent the model knows, as result, "
+        "below Wrap/ParsePanic/%w and as first/last/only operand of every n-ary aggregator) "
         "plus random postfix constructions (12 and 24 steps), each built with the real ers/erc/errors/fmt functions and compared "
         "with the oracle's vector (nil, ers.Ok, errors.Is per leaf/unrelated sentinel, errors.As per type, Unwind as bag and "
         "most-recent-first per direct argument, identity of the single plain case, Len); non-trivial = >= 2 constituents. "
